@@ -72,6 +72,7 @@ type c12Sig struct {
 }
 
 type c12Scenario struct {
+	Poison   []int // messages with an undecodable signature entry
 	Now      int64
 	Reqs     []c12Req
 	Sig      []c12Sig
@@ -95,6 +96,13 @@ func (s *c12Scenario) JSON() []byte {
 			b.WriteString(",")
 		}
 		fmt.Fprintf(&b, `{"s":"%s","at":%d,"strict":%v}`, r.Server, r.At, r.Strict)
+	}
+	b.WriteString(`],"poison":[`)
+	for i, p := range s.Poison {
+		if i > 0 {
+			b.WriteString(",")
+		}
+		fmt.Fprintf(&b, "%d", p)
 	}
 	b.WriteString(`],"sig":[`)
 	for i, g := range s.Sig {
@@ -335,6 +343,14 @@ type c12SigSpec struct {
 // c12Message builds {"n":<n>,"origin":"o","signatures":{...}[,"unsigned":{...}]} and returns the
 // (server, kid, key hex) triples whose signature verifies.
 func c12Message(n int, sigs []c12SigSpec, unsigned bool) ([]byte, []c12SigSpec) {
+	msg, valid, _ := c12MessageP(n, sigs, unsigned)
+	return msg, valid
+}
+
+// c12MessageP also says whether the message is poisoned: some signature entry does not decode. The
+// triples returned verify when looked at on their own; whether an undecodable entry elsewhere in
+// "signatures" spoils them depends on the source tree (the model knows which, Gen/GenC12.v).
+func c12MessageP(n int, sigs []c12SigSpec, unsigned bool) ([]byte, []c12SigSpec, bool) {
 	content := fmt.Sprintf(`{"n":%d,"origin":"o"}`, n)
 	other := fmt.Sprintf(`{"n":%d,"origin":"o"}`, n+1)
 	byServer := map[string][]string{}
@@ -369,10 +385,7 @@ func c12Message(n int, sigs []c12SigSpec, unsigned bool) ([]byte, []c12SigSpec) 
 		msg += `,"unsigned":{"age":5}`
 	}
 	msg += "}"
-	if poisoned {
-		valid = nil
-	}
-	return []byte(msg), valid
+	return []byte(msg), valid, poisoned
 }
 
 var c12Servers = []string{"srvA", "srvB", "srvC"}
@@ -609,7 +622,11 @@ func (g *c12Gen) batch() {
 				}
 			}
 			var valid []c12SigSpec
-			msg, valid = c12Message(i, sigs, rng.Intn(3) == 0)
+			var poisoned bool
+			msg, valid, poisoned = c12MessageP(i, sigs, rng.Intn(3) == 0)
+			if poisoned {
+				sc.Poison = append(sc.Poison, i)
+			}
 			for _, v := range valid {
 				if v.Server == server {
 					sc.Sig = append(sc.Sig, c12Sig{i, v.Kid, c12Keys[v.KeyIdx].hex})
@@ -772,6 +789,40 @@ func (g *c12Gen) nearClock() {
 	}
 }
 
+// finding F62: request timestamps and valid_until_ts / expired_ts at 2^63-1, 2^63 and 2^64-1; the
+// specification oracle compares the millisecond values as unsigned integers
+func (g *c12Gen) int64Boundary() {
+	now := g.nowMs()
+	big := []uint64{1<<63 - 1, 1 << 63, 1<<64 - 1}
+	type rec struct {
+		name    string
+		exp, vu uint64
+	}
+	recs := []rec{{"valid one more hour", 0, now + c12Hour}, {"valid 2 days", 0, now + 2*c12Day}}
+	for _, b := range big {
+		recs = append(recs, rec{fmt.Sprintf("valid_until_ts=%d", b), 0, b}, rec{fmt.Sprintf("expired_ts=%d", b), b, 0})
+	}
+	ats := append([]uint64{now - c12Hour, now + c12Hour/2}, big...)
+	msg, _ := c12Message(1, []c12SigSpec{{"srvA", "ed25519:a", c12Good, 0}}, false)
+	for _, at := range ats {
+		for _, r := range recs {
+			for _, strict := range []bool{false, true} {
+				for _, viaFetcher := range []bool{false, true} {
+					sc := &c12Scenario{Reqs: []c12Req{{"srvA", at, strict}}, Sig: []c12Sig{{0, "ed25519:a", c12Keys[0].hex}}}
+					k := c12Key{Server: "srvA", Kid: "ed25519:a", Key: c12Keys[0].hex, Exp: r.exp, VU: r.vu}
+					if viaFetcher {
+						sc.Fetchers = []c12Script{{Keys: []c12Key{k}}}
+					} else {
+						sc.DB.Keys = []c12Key{k}
+					}
+					g.run(sc, [][]byte{msg}, fmt.Sprintf("int64 boundary: at=%d key %s strict=%v fetcher=%v", at, r.name, strict, viaFetcher))
+					g.c.Count("int64-boundary")
+				}
+			}
+		}
+	}
+}
+
 // boundaries against the clock itself, to the millisecond (see c12RunVerify)
 func (g *c12Gen) exactClock() {
 	msg, _ := c12Message(1, []c12SigSpec{{"srvA", "ed25519:a", c12Good, 0}}, false)
@@ -878,6 +929,7 @@ func init() {
 		g.firstPass()
 		g.nearClock()
 		g.exactClock()
+		g.int64Boundary()
 		n := c.Scale(1500, 40000)
 		for i := 0; i < n; i++ {
 			g.batch()
@@ -886,6 +938,8 @@ func init() {
 		g.listKeyIDs()
 		g.checkKeys()
 		g.publicKey()
+		g.parseKeyDoc()
+		g.plantedKey()
 		g.directFetch()
 		g.perspectiveFetch()
 	})
@@ -921,15 +975,25 @@ type c12DocSpec struct {
 	Old    []c12OldKeySpec
 	Notary []c12NotarySig
 	Poison bool // a non-object entry inside "signatures": no signature of the document verifies
+	// further top-level members (case variants, names that fold to one of the four, repeats of the
+	// four), written before or after the four regular members in the raw text
+	Extra []c12Member
+	// leave out regular members (by exact name)
+	Omit []string
+}
+
+type c12Member struct {
+	Name  string
+	Value string // JSON text
+	After bool
 }
 
 type c12DocSig struct{ Name, Kid, Key string }
 
 type c12Doc struct {
-	Raw    []byte
-	Fields string // the model's view of the unmarshalled value
-	Keys   gmsl.ServerKeys
-	Sigs   []c12DocSig
+	Raw      []byte
+	Sigs     []c12DocSig // (name, key id, key) triples for which VerifyJSON succeeds, each on its own
+	Poisoned bool        // "signatures" holds an entry (of some other entity) that does not decode
 }
 
 func c12BuildDoc(d c12DocSpec) (*c12Doc, error) {
@@ -945,12 +1009,61 @@ func c12BuildDoc(d c12DocSpec) (*c12Doc, error) {
 	for _, k := range ok {
 		oparts = append(oparts, fmt.Sprintf(`"%s":{"expired_ts":%d,"key":"%s"}`, k.Kid, k.Exp, b64(k.Key)))
 	}
-	body := func(vu uint64) string {
-		return fmt.Sprintf(`"old_verify_keys":{%s},"server_name":"%s","valid_until_ts":%d,"verify_keys":{%s}`,
-			strings.Join(oparts, ","), d.Server, vu, strings.Join(vparts, ","))
+	omit := map[string]bool{}
+	for _, o := range d.Omit {
+		omit[o] = true
 	}
-	content := "{" + body(d.VU) + "}"
-	other := "{" + body(d.VU+1) + "}"
+	// the members in raw-text order
+	members := func(vu uint64) []c12Member {
+		var m []c12Member
+		for _, e := range d.Extra {
+			if !e.After {
+				m = append(m, e)
+			}
+		}
+		for _, e := range []c12Member{
+			{Name: "old_verify_keys", Value: "{" + strings.Join(oparts, ",") + "}"},
+			{Name: "server_name", Value: `"` + d.Server + `"`},
+			{Name: "valid_until_ts", Value: strconv.FormatUint(vu, 10)},
+			{Name: "verify_keys", Value: "{" + strings.Join(vparts, ",") + "}"},
+		} {
+			if !omit[e.Name] {
+				m = append(m, e)
+			}
+		}
+		for _, e := range d.Extra {
+			if e.After {
+				m = append(m, e)
+			}
+		}
+		return m
+	}
+	text := func(m []c12Member) string {
+		var p []string
+		for _, e := range m {
+			p = append(p, fmt.Sprintf(`"%s":%s`, e.Name, e.Value))
+		}
+		return strings.Join(p, ",")
+	}
+	// what a signature covers: the object with the last of repeated members, members sorted by name
+	canonical := func(m []c12Member) string {
+		last := map[string]string{}
+		var names []string
+		for _, e := range m {
+			if _, ok := last[e.Name]; !ok {
+				names = append(names, e.Name)
+			}
+			last[e.Name] = e.Value
+		}
+		sort.Strings(names)
+		var c []c12Member
+		for _, n := range names {
+			c = append(c, c12Member{Name: n, Value: last[n]})
+		}
+		return "{" + text(c) + "}"
+	}
+	content := canonical(members(d.VU))
+	other := canonical(append(members(d.VU), c12Member{Name: "zz_other", Value: "1"}))
 	sigs := map[string]map[string]string{}
 	var names []string
 	var table []c12DocSig
@@ -999,40 +1112,21 @@ func c12BuildDoc(d c12DocSpec) (*c12Doc, error) {
 	}
 	if d.Poison {
 		sparts = append(sparts, `"zzz":5`)
-		table = nil
 	}
-	raw := "{" + body(d.VU) + `,"signatures":{` + strings.Join(sparts, ",") + "}}"
-	doc := &c12Doc{Raw: []byte(raw), Sigs: table}
-	if err := json.Unmarshal(doc.Raw, &doc.Keys); err != nil {
-		return nil, err
+	raw := "{" + text(members(d.VU)) + `,"signatures":{` + strings.Join(sparts, ",") + "}}"
+	if len(members(d.VU)) == 0 {
+		raw = `{"signatures":{` + strings.Join(sparts, ",") + "}}"
 	}
-	// the model's view: the fields as the library decoded them
-	var vf, of []string
-	var vkids, okids []string
-	for k := range doc.Keys.VerifyKeys {
-		vkids = append(vkids, string(k))
-	}
-	for k := range doc.Keys.OldVerifyKeys {
-		okids = append(okids, string(k))
-	}
-	sort.Strings(vkids)
-	sort.Strings(okids)
-	for _, k := range vkids {
-		vf = append(vf, fmt.Sprintf(`["%s","%s"]`, k, hex.EncodeToString(doc.Keys.VerifyKeys[gmsl.KeyID(k)].Key)))
-	}
-	for _, k := range okids {
-		o := doc.Keys.OldVerifyKeys[gmsl.KeyID(k)]
-		of = append(of, fmt.Sprintf(`["%s","%s",%d]`, k, hex.EncodeToString(o.Key), uint64(o.ExpiredTS)))
-	}
-	doc.Fields = fmt.Sprintf(`{"s":"%s","vu":%d,"verify":[%s],"old":[%s]}`, doc.Keys.ServerName, uint64(doc.Keys.ValidUntilTS),
-		strings.Join(vf, ","), strings.Join(of, ","))
-	return doc, nil
+	return &c12Doc{Raw: []byte(raw), Sigs: table, Poisoned: d.Poison}, nil
 }
 
-func c12DocsJSON(docs []*c12Doc) (fields, sig string) {
+// the poisoned document indices and the signature table of a list of documents
+func c12DocsJSON(docs []*c12Doc) (poison, sig string) {
 	var f, s []string
 	for i, d := range docs {
-		f = append(f, d.Fields)
+		if d.Poisoned {
+			f = append(f, strconv.Itoa(i))
+		}
 		for _, g := range d.Sigs {
 			s = append(s, fmt.Sprintf(`[%d,"%s","%s","%s"]`, i, g.Name, g.Kid, g.Key))
 		}
@@ -1143,14 +1237,16 @@ func c12ParseAsked(rows [][]json.RawMessage) map[gmsl.PublicKeyLookupRequest]spe
 	return m
 }
 
-func c12UnmarshalDocs(raws [][]byte) []gmsl.ServerKeys {
-	var r []gmsl.ServerKeys
+// the documents as a KeyClient decodes them; ok[i] is false when document i does not decode (the
+// client then fails the request that would have carried it)
+func c12UnmarshalDocs(raws [][]byte) (docs []gmsl.ServerKeys, ok []bool) {
 	for _, raw := range raws {
 		var k gmsl.ServerKeys
-		_ = json.Unmarshal(raw, &k)
-		r = append(r, k)
+		err := json.Unmarshal(raw, &k)
+		docs = append(docs, k)
+		ok = append(ok, err == nil)
 	}
-	return r
+	return
 }
 
 func init() {
@@ -1166,6 +1262,23 @@ func init() {
 		}
 		ch, ks := gmsl.CheckKeys(spec.ServerName(sc.Server), time.Unix(0, sc.Now), keys)
 		return args, B(c12ChecksText(ch, ks))
+	})
+	// [raw document] -> E | the decoded fields
+	RegisterImpl("C12.parse_key_doc", func(args [][]byte) ([][]byte, []byte) {
+		var keys gmsl.ServerKeys
+		if err := json.Unmarshal(args[0], &keys); err != nil {
+			return args, B("E")
+		}
+		var vk, ok []string
+		for k, v := range keys.VerifyKeys {
+			vk = append(vk, string(k)+"="+hex.EncodeToString(v.Key))
+		}
+		for k, v := range keys.OldVerifyKeys {
+			ok = append(ok, fmt.Sprintf("%s=%s:%d", k, hex.EncodeToString(v.Key), uint64(v.ExpiredTS)))
+		}
+		sort.Strings(vk)
+		sort.Strings(ok)
+		return args, B(fmt.Sprintf("s=%s;vu=%d;v=%s;o=%s", keys.ServerName, uint64(keys.ValidUntilTS), strings.Join(vk, ","), strings.Join(ok, ",")))
 	})
 	// [scenario {kid, at}; raw document]
 	RegisterImpl("C12.public_key", func(args [][]byte) ([][]byte, []byte) {
@@ -1191,10 +1304,10 @@ func init() {
 		if err := json.Unmarshal(args[0], &sc); err != nil {
 			return args, B("badconfig")
 		}
-		docs := c12UnmarshalDocs(args[1:])
+		docs, ok := c12UnmarshalDocs(args[1:])
 		cl := &c12Client{mu: make(chan struct{}, 1), get: map[string]*gmsl.ServerKeys{}, lookup: map[string][]gmsl.ServerKeys{}, lookupE: map[string]bool{}}
 		for s, ix := range sc.Get {
-			if ix != nil && *ix < len(docs) {
+			if ix != nil && *ix < len(docs) && ok[*ix] {
 				d := docs[*ix]
 				cl.get[s] = &d
 			}
@@ -1205,6 +1318,10 @@ func init() {
 			if ixs != nil {
 				cl.lookupE[s] = true
 				for _, ix := range *ixs {
+					if ix >= len(docs) || !ok[ix] {
+						cl.lookupE[s] = false
+						break
+					}
 					cl.lookup[s] = append(cl.lookup[s], docs[ix])
 				}
 			}
@@ -1234,13 +1351,17 @@ func init() {
 		if err := json.Unmarshal(args[0], &sc); err != nil {
 			return args, B("badconfig")
 		}
-		docs := c12UnmarshalDocs(args[1:])
+		docs, ok := c12UnmarshalDocs(args[1:])
 		cl := &c12Client{mu: make(chan struct{}, 1), lookup: map[string][]gmsl.ServerKeys{}, lookupE: map[string]bool{}}
 		var ixs *[]int
 		_ = json.Unmarshal(sc.Lookup, &ixs)
 		if ixs != nil {
 			cl.lookupE[sc.PName] = true
 			for _, ix := range *ixs {
+				if ix >= len(docs) || !ok[ix] {
+					cl.lookupE[sc.PName] = false
+					break
+				}
 				cl.lookup[sc.PName] = append(cl.lookup[sc.PName], docs[ix])
 			}
 		}
@@ -1346,7 +1467,7 @@ func (g *c12Gen) checkKeys() {
 			return
 		}
 		fields, sig := c12DocsJSON([]*c12Doc{doc})
-		cfg := fmt.Sprintf(`{"now":%d,"server":"%s","docs":%s,"sig":%s}`, now, server, fields, sig)
+		cfg := fmt.Sprintf(`{"now":%d,"server":"%s","poison":%s,"sig":%s}`, now, server, fields, sig)
 		c.Run("C12.check_keys", [][]byte{B(cfg), doc.Raw}, "C12.check_keys", "C12.prop.check_keys", desc)
 		c.Count("check_keys")
 	}
@@ -1370,7 +1491,11 @@ func (g *c12Gen) checkKeys() {
 		}
 		cl := clocks[c.Rng.Intn(len(clocks))]
 		d.VU = cl.vu
-		emit(c12Servers[c.Rng.Intn(2)], d, cl.now, "check_keys random")
+		desc := "check_keys random"
+		if c.Rng.Intn(3) == 0 {
+			desc += " with member " + g.foldMember(&d)
+		}
+		emit(c12Servers[c.Rng.Intn(2)], d, cl.now, desc)
 	}
 }
 
@@ -1387,7 +1512,7 @@ func (g *c12Gen) publicKey() {
 	for _, kid := range []string{"ed25519:a", "ed25519:b", "ed25519:old", "ed25519:late", "ed25519:none", ""} {
 		for _, base := range []uint64{T, T - 500, T + 500, 0, 1 << 63, 1<<63 + 5, 1<<64 - 1} {
 			for _, dd := range []int64{-1, 0, 1} {
-				cfg := fmt.Sprintf(`{"kid":"%s","at":%d,"docs":%s}`, kid, base+uint64(dd), fields)
+				cfg := fmt.Sprintf(`{"kid":"%s","at":%d,"poison":%s}`, kid, base+uint64(dd), fields)
 				g.c.Run("C12.public_key", [][]byte{B(cfg), doc.Raw}, "C12.public_key", "", "ServerKeys.PublicKey")
 				g.c.Count("public_key")
 			}
@@ -1420,11 +1545,13 @@ func (g *c12Gen) fetchDoc(server string, class int) c12DocSpec {
 		d.VU = 1 << 63
 	case 9: // non-ed25519 key next to a good one (passed through unchecked)
 		d.Verify = append(d.Verify, c12VerifyKeySpec{Kid: "rsa:1", Key: []byte("rsakey"), SignIdx: -1})
+	case 10: // an old key published with expired_ts 0: mapped as neither expired nor valid
+		d.Old = []c12OldKeySpec{{"ed25519:old", c12Pub(2), 0}}
 	}
 	return d
 }
 
-const c12DocClasses = 10
+const c12DocClasses = 11
 
 func (g *c12Gen) directFetch() {
 	c := g.c
@@ -1447,6 +1574,14 @@ func (g *c12Gen) directFetch() {
 			}
 			return rng.Intn(c12DocClasses)
 		}
+		fd := func(server string, class int) c12DocSpec {
+			d := g.fetchDoc(server, class)
+			if rng.Intn(5) == 0 {
+				g.foldMember(&d)
+				c.Count("direct_fetch/doc-with-extra-member")
+			}
+			return d
+		}
 		var asked []string
 		seen := map[string]bool{}
 		for j := 1 + rng.Intn(5); j > 0; j-- {
@@ -1467,9 +1602,9 @@ func (g *c12Gen) directFetch() {
 			case 0:
 				get = append(get, fmt.Sprintf(`"%s":null`, s))
 			case 1: // a document of another server
-				get = append(get, fmt.Sprintf(`"%s":%d`, s, addDoc(g.fetchDoc(servers[rng.Intn(3)], pickClass()))))
+				get = append(get, fmt.Sprintf(`"%s":%d`, s, addDoc(fd(servers[rng.Intn(3)], pickClass()))))
 			default:
-				get = append(get, fmt.Sprintf(`"%s":%d`, s, addDoc(g.fetchDoc(s, pickClass()))))
+				get = append(get, fmt.Sprintf(`"%s":%d`, s, addDoc(fd(s, pickClass()))))
 			}
 			switch rng.Intn(6) {
 			case 0:
@@ -1483,13 +1618,13 @@ func (g *c12Gen) directFetch() {
 					if rng.Intn(3) == 0 {
 						srv = servers[rng.Intn(3)]
 					}
-					ix = append(ix, strconv.Itoa(addDoc(g.fetchDoc(srv, pickClass()))))
+					ix = append(ix, strconv.Itoa(addDoc(fd(srv, pickClass()))))
 				}
 				lookup = append(lookup, fmt.Sprintf(`"%s":[%s]`, s, strings.Join(ix, ",")))
 			}
 		}
 		fields, sig := c12DocsJSON(docs)
-		cfg := fmt.Sprintf(`{"now":0,"local":["srvL"],"localkey":"%s","asked":[%s],"get":{%s},"lookup":{%s},"docs":%s,"sig":%s}`,
+		cfg := fmt.Sprintf(`{"now":0,"local":["srvL"],"localkey":"%s","asked":[%s],"get":{%s},"lookup":{%s},"poison":%s,"sig":%s}`,
 			c12Keys[4].hex, strings.Join(asked, ","), strings.Join(get, ","), strings.Join(lookup, ","), fields, sig)
 		args := [][]byte{B(cfg)}
 		for _, d := range docs {
@@ -1542,6 +1677,10 @@ func (g *c12Gen) perspectiveFetch() {
 			if rng.Intn(25) == 0 {
 				d.Poison = true
 			}
+			if rng.Intn(5) == 0 {
+				g.foldMember(&d)
+				c.Count("perspective_fetch/doc-with-extra-member")
+			}
 			doc, err := c12BuildDoc(d)
 			if err != nil {
 				panic(err)
@@ -1567,7 +1706,7 @@ func (g *c12Gen) perspectiveFetch() {
 			}
 		}
 		fields, sig := c12DocsJSON(docs)
-		cfg := fmt.Sprintf(`{"pname":"notary","pkeys":[%s],"asked":[%s],"lookup":%s,"docs":%s,"sig":%s}`, pkeys, strings.Join(asked, ","), lookup, fields, sig)
+		cfg := fmt.Sprintf(`{"pname":"notary","pkeys":[%s],"asked":[%s],"lookup":%s,"poison":%s,"sig":%s}`, pkeys, strings.Join(asked, ","), lookup, fields, sig)
 		args := [][]byte{B(cfg)}
 		for _, d := range docs {
 			args = append(args, d.Raw)
@@ -1579,5 +1718,175 @@ func (g *c12Gen) perspectiveFetch() {
 		} else {
 			c.Count("perspective_fetch/answer")
 		}
+	}
+}
+
+// ---------- F64: member names of key documents ----------
+// names that encoding/json's struct decoding takes for the member (case variants, and names that
+// only fold to it: U+017F long s for s, U+212A Kelvin sign for k), and the exact name repeated
+var c12MemberVariants = map[string][]string{
+	"server_name":     {"server_name", "Server_name", "SERVER_NAME", "ſerver_name", "server_Name"},
+	"verify_keys":     {"verify_keys", "Verify_keys", "VERIFY_KEYS", "verify_keyſ", "verify_Keys"},
+	"old_verify_keys": {"old_verify_keys", "Old_verify_keys", "old_verify_keyſ", "old_verify_Keys"},
+	"valid_until_ts":  {"valid_until_ts", "Valid_until_ts", "VALID_UNTIL_TS", "valid_until_tſ"},
+}
+var c12MemberNames = []string{"server_name", "verify_keys", "old_verify_keys", "valid_until_ts"}
+
+func c12B64(b []byte) string { return base64.RawStdEncoding.EncodeToString(b) }
+
+// a value of the right type for the member, different from what c12GoodDoc puts there
+func c12MemberValue(member string, rng interface{ Intn(int) int }) string {
+	switch member {
+	case "server_name":
+		return `"` + c12Servers[1+rng.Intn(2)] + `"`
+	case "verify_keys":
+		return fmt.Sprintf(`{"ed25519:%s":{"key":"%s"}}`, []string{"a", "x"}[rng.Intn(2)], c12B64(c12Pub(1+rng.Intn(3))))
+	case "old_verify_keys":
+		return fmt.Sprintf(`{"ed25519:%s":{"expired_ts":%d,"key":"%s"}}`, []string{"a", "o"}[rng.Intn(2)], 1000+rng.Intn(5), c12B64(c12Pub(1+rng.Intn(3))))
+	default:
+		return []string{"0", "1", "99999999999999", "18446744073709551615"}[rng.Intn(4)]
+	}
+}
+
+// add one member of the family to d
+func (g *c12Gen) foldMember(d *c12DocSpec) string {
+	rng := g.c.Rng
+	m := c12MemberNames[rng.Intn(len(c12MemberNames))]
+	vs := c12MemberVariants[m]
+	name := vs[rng.Intn(len(vs))]
+	e := c12Member{Name: name, Value: c12MemberValue(m, rng), After: rng.Intn(2) == 0}
+	d.Extra = append(d.Extra, e)
+	if m == "server_name" && rng.Intn(2) == 0 { // and a self-made signature under the other name
+		var other string
+		_ = json.Unmarshal([]byte(e.Value), &other)
+		for _, k := range d.Verify {
+			if k.SignIdx >= 0 {
+				d.Notary = append(d.Notary, c12NotarySig{Name: other, Kid: k.Kid, KeyIdx: k.SignIdx})
+			}
+		}
+	}
+	pos := "before"
+	if e.After {
+		pos = "after"
+	}
+	return name + " " + pos
+}
+
+func (g *c12Gen) parseKeyDoc() {
+	c := g.c
+	T := uint64(1700000000000)
+	emit := func(d c12DocSpec, desc string) {
+		doc, err := c12BuildDoc(d)
+		if err != nil {
+			panic(err)
+		}
+		c.Run("C12.parse_key_doc", [][]byte{doc.Raw}, "C12.parse_key_doc", "", desc)
+		c.Count("parse_key_doc")
+	}
+	base := func() c12DocSpec {
+		d := c12GoodDoc("srvA", "ed25519:a", 0, T)
+		d.Old = []c12OldKeySpec{{"ed25519:old", c12Pub(2), T - 5}}
+		return d
+	}
+	emit(base(), "key document: regular")
+	// every variant of every member, before and after, with a well-typed other value
+	for _, m := range c12MemberNames {
+		for _, name := range c12MemberVariants[m] {
+			for _, after := range []bool{false, true} {
+				for rep := 0; rep < 2; rep++ {
+					d := base()
+					d.Extra = []c12Member{{Name: name, Value: c12MemberValue(m, c.Rng), After: after}}
+					emit(d, fmt.Sprintf("key document: extra member %q after=%v", name, after))
+					d.Omit = []string{m} // only the variant present
+					emit(d, fmt.Sprintf("key document: only %q", name))
+				}
+			}
+		}
+	}
+	// values of the wrong type or form under the exact names
+	bad := map[string][]string{
+		"server_name":     {`5`, `null`, `{}`, `["srvA"]`, `true`, `""`},
+		"valid_until_ts":  {`"1"`, `-1`, `-0`, `1.5`, `1e3`, `18446744073709551615`, `18446744073709551616`, `null`, `{}`, `9223372036854775808`},
+		"verify_keys":     {`[]`, `"x"`, `null`, `5`, `{"ed25519:a":5}`, `{"ed25519:a":{"key":5}}`, `{"ed25519:a":{"key":"!!"}}`, `{"ed25519:a":null}`, `{"ed25519:a":{}}`, `{"ed25519:a":{"key":null}}`, `{"ed25519:a":{"key":"QUJD"},"ed25519:a":{"key":"REVG"}}`, `{"ed25519:a":{"key":"QQ"}}`, `{"ed25519:a":{"key":"Q"}}`, `{"ed25519:a":{"key":"QUJD-_"}}`, `{"ed25519:a":{"key":"QUJD+/"}}`, `{"ed25519:a":{"key":"QUJD="}}`, `{}`},
+		"old_verify_keys": {`[]`, `null`, `{"ed25519:o":{"key":"QUJD"}}`, `{"ed25519:o":{"expired_ts":"5","key":"QUJD"}}`, `{"ed25519:o":{"expired_ts":-1,"key":"QUJD"}}`, `{"ed25519:o":{"expired_ts":7}}`, `{"ed25519:o":null}`, `{"ed25519:o":5}`, `{"ed25519:o":{"expired_ts":18446744073709551615,"key":"QUJD"}}`},
+	}
+	for _, m := range c12MemberNames {
+		for _, v := range bad[m] {
+			d := base()
+			d.Omit = []string{m}
+			d.Extra = []c12Member{{Name: m, Value: v}}
+			emit(d, "key document: "+m+" = "+v)
+			// a folded member carrying the bad value next to the good exact one must not matter
+			d = base()
+			d.Extra = []c12Member{{Name: c12MemberVariants[m][1], Value: v, After: true}}
+			emit(d, "key document: "+c12MemberVariants[m][1]+" = "+v)
+		}
+	}
+	for _, raw := range []string{``, `null`, `[]`, `5`, `"x"`, `{}`, `{"server_name":"a"`, `{"signatures":{}}`, `{"server_name":"a","server_name":"b"}`,
+		`{"verify_keys":{"ed25519:a":{"key":"QUJD"}},"verify_keys":{"ed25519:b":{"key":"REVG"}}}`} {
+		c.Run("C12.parse_key_doc", [][]byte{B(raw)}, "C12.parse_key_doc", "", "key document: "+raw)
+		c.Count("parse_key_doc")
+	}
+	n := c.Scale(150, 3000)
+	for i := 0; i < n; i++ {
+		d := base()
+		desc := ""
+		for j := 1 + c.Rng.Intn(3); j > 0; j-- {
+			desc += g.foldMember(&d) + "; "
+		}
+		emit(d, "key document: random extra members "+desc)
+	}
+}
+
+// the planted-key scenario and its neighbours, through the perspective and the direct fetcher
+func (g *c12Gen) plantedKey() {
+	c := g.c
+	now := g.nowMs()
+	for _, name := range append(append([]string{}, c12MemberVariants["server_name"]...), "zerver_name") {
+		for _, after := range []bool{false, true} {
+			for _, selfSigned := range []bool{true, false} {
+				for _, askVictim := range []bool{false, true} {
+					// srvA (evil) publishes its own valid document with a second name member for srvB (victim)
+					d := c12GoodDoc("srvA", "ed25519:a", 0, now+c12Day)
+					d.Extra = []c12Member{{Name: name, Value: `"srvB"`, After: after}}
+					if selfSigned {
+						d.Notary = append(d.Notary, c12NotarySig{Name: "srvB", Kid: "ed25519:a", KeyIdx: 0})
+					}
+					d.Notary = append(d.Notary, c12NotarySig{Name: "notary", Kid: "ed25519:n1", KeyIdx: 3})
+					doc, err := c12BuildDoc(d)
+					if err != nil {
+						panic(err)
+					}
+					_, sig := c12DocsJSON([]*c12Doc{doc})
+					asked := fmt.Sprintf(`["srvA","ed25519:a",%d]`, now)
+					if askVictim {
+						asked += fmt.Sprintf(`,["srvB","ed25519:a",%d]`, now)
+					}
+					desc := fmt.Sprintf("planted key: member %q after=%v signed-as-victim=%v victim-asked=%v", name, after, selfSigned, askVictim)
+					cfg := fmt.Sprintf(`{"pname":"notary","pkeys":[["ed25519:n1","%s"]],"asked":[%s],"lookup":[0],"sig":%s}`, c12Keys[3].hex, asked, sig)
+					c.Run("C12.perspective_fetch", [][]byte{B(cfg), doc.Raw}, "C12.perspective_fetch", "C12.prop.perspective_fetch", desc+" (perspective)")
+					// the same document served directly by srvA, and by srvA when asked as srvB's notary
+					cfg = fmt.Sprintf(`{"now":0,"local":[],"localkey":"%s","asked":[%s],"get":{"srvA":0,"srvB":null},"lookup":{"srvB":[0]},"sig":%s}`, c12Keys[4].hex, asked, sig)
+					c.Run("C12.direct_fetch", [][]byte{B(cfg), doc.Raw}, "C12.direct_fetch", "C12.prop.direct_fetch", desc+" (direct)")
+					c.Count("planted-key")
+				}
+			}
+		}
+	}
+	// an honest notary answers for a server nobody asked about (correctly named and signed): ignored
+	for _, second := range []bool{false, true} {
+		d1 := c12GoodDoc("srvA", "ed25519:a", 0, now+c12Day)
+		d1.Notary = []c12NotarySig{{"notary", "ed25519:n1", 3, false}}
+		d2 := c12GoodDoc("srvC", "ed25519:a", 1, now+c12Day)
+		d2.Notary = []c12NotarySig{{"notary", "ed25519:n1", 3, false}}
+		if second {
+			d2.Verify[0].Tamper = true // and it would not even pass its checks
+		}
+		doc1, _ := c12BuildDoc(d1)
+		doc2, _ := c12BuildDoc(d2)
+		_, sig := c12DocsJSON([]*c12Doc{doc1, doc2})
+		cfg := fmt.Sprintf(`{"pname":"notary","pkeys":[["ed25519:n1","%s"]],"asked":[["srvA","ed25519:a",%d]],"lookup":[0,1],"sig":%s}`, c12Keys[3].hex, now, sig)
+		c.Run("C12.perspective_fetch", [][]byte{B(cfg), doc1.Raw, doc2.Raw}, "C12.perspective_fetch", "C12.prop.perspective_fetch", "perspective: response about a server that was not asked for")
+		c.Count("planted-key")
 	}
 }
